@@ -1025,6 +1025,11 @@ def node_defs(n) -> List[Def]:
                 _bind_targets(it.optional_vars, None, n.stmt, out)
     elif n.kind == 'handler' and n.ast.name:
         out.append(Def(n.ast.name, None, 'except', n.ast))
+    if n.kind in ('stmt', 'test', 'iter', 'with'):
+        # `(name := value)` anywhere in the node's own expressions binds name in the function (also from inside a comprehension)
+        for x in n.walk():
+            if isinstance(x, ast.NamedExpr) and isinstance(x.target, ast.Name) and not any(d.name == x.target.id for d in out):
+                out.append(Def(x.target.id, x.value, 'assign', n.ast if isinstance(n.ast, ast.stmt) else x))
     return out
 
 
@@ -1063,16 +1068,47 @@ class ReachingDefs:
         return [self.defs[i] for i in sorted(self.IN.get(nid, ())) if self.defs[i].name == name]
 
 
+def callable_alias(func: Func, e, depth: int = 0):
+    """The expression a local callable alias stands for: `e` is a local of `func` (no parameter, not touched by a nested
+    definition) with exactly one binding, a plain `name = <Name | Attribute>` (`_decode = decode`, `enc = uri.encode_value`).
+    None when e is no such local."""
+    if not isinstance(e, ast.Name) or depth > 2 or e.id in func.params():
+        return None
+    stores = [x for x in ast.walk(func.node) if isinstance(x, ast.Name) and x.id == e.id and isinstance(x.ctx, (ast.Store, ast.Del))]
+    binds = [x for x in walk_no_nested(func.node) if isinstance(x, ast.Assign) and len(x.targets) == 1
+             and isinstance(x.targets[0], ast.Name) and x.targets[0].id == e.id]
+    if len(stores) != 1 or len(binds) != 1 or not isinstance(binds[0].value, (ast.Name, ast.Attribute)):
+        return None
+    if any(isinstance(x, (ast.Global, ast.Nonlocal)) and e.id in x.names for x in ast.walk(func.node)):
+        return None
+    return binds[0].value
+
+
 def resolves_to(p: Project, func: Func, call: ast.Call, qual: str) -> bool:
-    t = p.resolve_callable(func, call.func)
+    fexpr = call.func
+    for _ in range(3):
+        t = p.resolve_callable(func, fexpr) if isinstance(fexpr, (ast.Name, ast.Attribute)) else None
+        if t is not None:
+            break
+        fexpr = callable_alias(func, fexpr)      # `_decode = decode` ... `_decode(k)`
+        if fexpr is None:
+            return False
     if isinstance(t, Func):
         return t.qual == qual
     return t == qual
 
 
 def concat_parts(e) -> List[ast.AST]:
+    """The operands of a `+` chain, left to right; an f-string counts as the concatenation of its literal pieces and its
+    plain `{expr}` fields (a field with a conversion or a format spec stays one opaque part: the f-string is not split)."""
     if isinstance(e, ast.BinOp) and isinstance(e.op, ast.Add):
         return concat_parts(e.left) + concat_parts(e.right)
+    if isinstance(e, ast.JoinedStr) and e.values and all(
+            isinstance(v, ast.Constant) or (isinstance(v, ast.FormattedValue) and v.conversion == -1 and v.format_spec is None) for v in e.values):
+        out = []
+        for v in e.values:
+            out.extend([v] if isinstance(v, ast.Constant) else concat_parts(v.value))
+        return out
     return [e]
 
 
@@ -1378,6 +1414,14 @@ class _CBound:
         self.obj, self.func = obj, func
 
 
+class _CPrimBound:
+    """A bound method of a primitive value read as a value (`match_pair = _PAIR_RE.match`): calling it is the method call."""
+    __slots__ = ('recv', 'attr')
+
+    def __init__(self, recv, attr):
+        self.recv, self.attr = recv, attr
+
+
 def _c_stdlib_consts():
     import string
     return {'string.' + n: getattr(string, n) for n in ('digits', 'ascii_letters', 'ascii_lowercase', 'ascii_uppercase', 'hexdigits',
@@ -1531,6 +1575,9 @@ class ConcreteEval:
             if owner is not None:
                 return self.ev(expr, {}, None, owner.module)
             raise CRaise('AttributeError', node)
+        if isinstance(obj, (str, bytes, list, tuple, dict, set, frozenset, self.re.Pattern, self.re.Match)) and not name.startswith('_') \
+                and callable(getattr(obj, name, None)):
+            return _CPrimBound(obj, name)     # which methods may be called is decided at the call (method())
         self.bad(f, 'attribute %s of %s' % (name, type(obj).__name__), node)
 
     # ---- expressions
@@ -1630,6 +1677,11 @@ class ConcreteEval:
             return self.comprehension(e, env, f, m)
         if isinstance(e, ast.Call):
             return self.call(e, env, f, m)
+        if isinstance(e, ast.NamedExpr) and isinstance(e.target, ast.Name) and f is not None:
+            v = E(e.value)
+            env[e.target.id] = v
+            self.trace.append(('assign', e, v, f.qual))
+            return v
         self.bad(f, 'the expression', e)
 
     def bind(self, target, value, env, f, m, stmt=None):
@@ -1678,6 +1730,8 @@ class ConcreteEval:
     def comprehension(self, e, env, f, m):
         out_list: List[object] = []
         out_dict: Dict[object, object] = {}
+        if any(isinstance(x, ast.NamedExpr) for x in ast.walk(e)):
+            self.bad(f, 'an assignment expression inside a comprehension', e)
         scope = dict(env)
         fq = f.qual if f is not None else ''
 
@@ -1774,6 +1828,8 @@ class ConcreteEval:
             return self.call_func(callee, args, kw, node)
         if isinstance(callee, _CBound):
             return self.call_func(callee.func, [callee.obj] + list(args), kw, node)
+        if isinstance(callee, _CPrimBound):
+            return self.method(callee.recv, callee.attr, args, kw, f, node)
         if isinstance(callee, Class):
             if callee.qual not in self.p.classes:
                 self.bad(f, 'instantiation of %s' % callee.qual, node)
